@@ -48,6 +48,11 @@ var c17Calls = []struct {
 		}
 		return ""
 	}},
+	{"Pretouch(deep chain, WithMaxPretouchDepth(1))", func() string { return pretouch(reflect.TypeOf(universe.Deep1{}), frugal.WithMaxPretouchDepth(1)) }},
+	{"Pretouch(deep chain, WithMaxPretouchDepth(2))", func() string { return pretouch(reflect.TypeOf(universe.Deep1{}), frugal.WithMaxPretouchDepth(2)) }},
+	{"Pretouch(deep chain, WithMaxPretouchDepth(3))", func() string { return pretouch(reflect.TypeOf(&universe.Deep1{}), frugal.WithMaxPretouchDepth(3)) }},
+	{"Pretouch(deep chain, WithMaxInlineDepth(2))", func() string { return pretouch(reflect.TypeOf(universe.Deep1{}), frugal.WithMaxInlineDepth(2)) }},
+	{"Pretouch(deep chain, WithMaxInlineILSize(1))", func() string { return pretouch(reflect.TypeOf(universe.Deep1{}), frugal.WithMaxInlineILSize(1)) }},
 	{"NoJIT(true)", func() string { frugal.NoJIT(true); return "" }},
 	{"NoJIT(false)", func() string { frugal.NoJIT(false); return "" }},
 	{"SetMaxInlineDepth", func() string {
@@ -165,12 +170,12 @@ func init() {
 	harness.Register(&harness.Check{
 		ID:          "C17",
 		Level:       "model_checking",
-		Explanation: "Bounded exhaustive enumeration (E1) of configurations on the UNMODIFIED build: 5 x 4 valid settings of the two FRUGAL_MAX_INLINE_* environment variables x 13 legacy calls (Pretouch on valid / pointer / invalid / nil / non-struct types with every option constructor, NoJIT, the SetMaxInline setters, debug.GetStats) x 3 placements (before first use, between two codec calls, after), each in its own child process running a fixed codec battery (a sample of the C01-C04 type space: sizes, canonical encodings, decoded values). The battery digest must be identical in every configuration and equal the digest of the plain configuration, whose results must equal the reference model; Pretouch never fails, the setters return their argument, GetStats is zero.",
+		Explanation: "Bounded exhaustive enumeration (E1) of configurations on the UNMODIFIED build: 5 x 4 valid settings of the two FRUGAL_MAX_INLINE_* environment variables x 18 legacy calls (Pretouch on valid / pointer / invalid / nil / non-struct types with every option constructor, NoJIT, the SetMaxInline setters, debug.GetStats) x 3 placements (before first use, between two codec calls, after), each in its own child process running a fixed codec battery (a sample of the C01-C04 type space: sizes, canonical encodings, decoded values). The battery digest must be identical in every configuration and equal the digest of the plain configuration, whose results must equal the reference model; Pretouch never fails, the setters return their argument, GetStats is zero.",
 		Assumptions: []string{"go1.23.5 toolchain", "the battery is a sample of the type space (about 90 types); the property's quantifier over all types rests on C01-C04"},
 		Phases: func(tier universe.Tier) []*harness.Phase {
 			return []*harness.Phase{{
 				Name: "configurations",
-				Rule: "env(5x4) x legacy call(13) x placement(3) child processes (quick: env combinations are paired with calls along a Latin-square diagonal plus the full env matrix for the no-call row; thorough: full product); distinct by configuration",
+				Rule: "env(5x4) x legacy call(18) x placement(3) child processes (quick: env combinations are paired with calls along a Latin-square diagonal plus the full env matrix for the no-call row; thorough: full product); distinct by configuration",
 				Body: func(c *explore.C) { c17Body(c, tier) },
 			}}
 		},
